@@ -572,6 +572,13 @@ func (e *nodeEngine) step(ws []string, o *Out) string {
 				time.Sleep(20 * time.Microsecond)
 			}
 		}()
+		// the survivors-to-be that this node currently believes reachable
+		var believed []*nd
+		for _, s := range e.nodes {
+			if s.alive && s != n && e.statusAt(n, s.id) == string(cluster.NodeStatusActive) {
+				believed = append(believed, s)
+			}
+		}
 		t0 := time.Now()
 		done := make(chan struct{})
 		go func() { n.srv.Shutdown(); close(done) }()
@@ -583,22 +590,22 @@ func (e *nodeEngine) step(ws []string, o *Out) string {
 		}
 		o.Add("shutdown-ms", int(time.Since(t0).Milliseconds()))
 		n.alive = false
-		// the peers it notified have status left at once (Leave waits for each ack)
+		// the peers it notified have status left at once (Leave waits for each ack); Leave only
+		// tries the peers this node believed reachable
 		notified := 0
-		for _, s := range e.survivors() {
+		for _, s := range believed {
 			if e.statusAt(s, n.id) == string(cluster.NodeStatusLeft) {
 				notified++
 			}
 		}
-		wantNotified := len(e.survivors())
+		wantNotified := len(believed)
 		if wantNotified > maxNotified {
 			wantNotified = maxNotified
 		}
+		notifiedStr := "all"
 		if notified < wantNotified {
-			o.Fail("C18", "not-left-immediately", fmt.Sprintf("lost=%s: %d survivors see it left when Shutdown returns, want >= %d: %s", n.id, notified, wantNotified, e.seen(n)))
-		}
-		if notified > wantNotified {
-			notified = wantNotified
+			notifiedStr = fmt.Sprintf("%d/%d", notified, wantNotified)
+			o.Fail("C18", "not-left-immediately", fmt.Sprintf("lost=%s: %d of the peers it believed reachable see it left when Shutdown returns, want >= %d: %s", n.id, notified, wantNotified, e.seen(n)))
 		}
 		// the watcher reports as soon as it has seen the marker (it is there by now, unless
 		// Leave never ran); only then is it told to stop
@@ -616,7 +623,7 @@ func (e *nodeEngine) step(ws []string, o *Out) string {
 		e.lb.mu.Lock()
 		e.lb.alive[i] = false // a health check would drop it; dialing it fails anyway
 		e.lb.mu.Unlock()
-		return "ok lost=" + n.id + " upstream-at-leave=" + upAtLeave + " notified=" + strconv.Itoa(notified) + " " + e.recover(n, string(cluster.NodeStatusLeft), o)
+		return "ok lost=" + n.id + " upstream-at-leave=" + upAtLeave + " notified=" + notifiedStr + " " + e.recover(n, string(cluster.NodeStatusLeft), o)
 	case "kill":
 		if len(ws) != 2 {
 			return "bad-op"
@@ -988,7 +995,21 @@ func (e *nodeEngine) proc(ws []string, o *Out) string {
 			return "fail start"
 		}
 		ns = append(ns, n)
-		time.Sleep(150 * time.Millisecond)
+		// wait until the process listens (gossip stream port and proxy port) before the next
+		// one tries to join it
+		up := func(addr string) func() bool {
+			return func() bool {
+				c, err := net.DialTimeout("tcp", addr, 200*time.Millisecond)
+				if err != nil {
+					return false
+				}
+				_ = c.Close()
+				return true
+			}
+		}
+		if !e.waitFor(settleBound, up(n.gossip)) || !e.waitFor(settleBound, up(n.proxy)) {
+			return "fail start"
+		}
 	}
 	hc := &http.Client{Transport: &http.Transport{DisableKeepAlives: true}, Timeout: 2 * time.Second}
 	get := func(n *procNode) int {
